@@ -508,6 +508,14 @@ def drop_pipes(net, pipes):
     :type pipes: Iterable
     :return: No output.
     """
+    # drop valves that are attached to the dropped pipes (they would reference a missing pipe)
+    if "valve" in net.keys() and len(net["valve"]):
+        pi_valves = net["valve"].index[(net["valve"]["et"] == "pi")
+                                       & net["valve"]["element"].isin(list(pipes))]
+        if len(pi_valves):
+            net["valve"].drop(pi_valves, inplace=True)
+            if "res_valve" in net.keys():
+                net["res_valve"].drop(net["res_valve"].index.intersection(pi_valves), inplace=True)
     # drop lines and geodata
     net["pipe"].drop(pipes, inplace=True)
     net["pipe_geodata"].drop(set(pipes) & set(net["pipe_geodata"].index), inplace=True)
